@@ -47,11 +47,13 @@ def is_syl(cp):
 
 
 class Font:
-    def __init__(self, kind, seed, tone, dotted):
-        self.kind, self.seed, self.tone, self.dotted = kind, seed, tone, dotted
+    def __init__(self, kind, seed, tone, dotted, shared=0):
+        # shared: GSUB layout in which vjmo and tjmo reference one common lookup (tjmo adds a second one); every
+        # role shows the same glyphs as in the layout with one private lookup per feature
+        self.kind, self.seed, self.tone, self.dotted, self.shared = kind, seed, tone, dotted, shared
 
     def key(self):
-        return (self.kind, self.seed, self.tone, int(self.dotted))
+        return (self.kind, self.seed, self.tone, int(self.dotted), int(self.shared))
 
     def has(self, cp):
         if 0x61 <= cp <= 0x65:
@@ -73,11 +75,12 @@ class Font:
         return "(%d, %d, %d, %s)" % (self.kind, self.seed, self.tone, "true" if self.dotted else "false")
 
     def req(self):
-        return "font %d %d %d %d" % self.key()
+        return "font %d %d %d %d %d" % self.key()
 
     def describe(self):
         return {"kind": ["syllables+jamo", "jamo only", "syllables only", "mixed (seeded)"][self.kind], "seed": self.seed,
-                "tone_marks": ["absent", "advance 1000", "advance 0"][self.tone], "dotted_circle": bool(self.dotted)}
+                "tone_marks": ["absent", "advance 1000", "advance 0"][self.tone], "dotted_circle": bool(self.dotted),
+                "gsub_layout": "vjmo and tjmo share a lookup" if self.shared else "one lookup per feature"}
 
 
 # ------------------------------------------------------------------ the property's oracle (per item)
@@ -381,7 +384,7 @@ def plan(chk, thorough):
     seed = int(chk.seed)
     rng = random.Random(seed * 1000003 + 12)
     fonts = [Font(0, 0, 1, 1), Font(1, 0, 1, 1), Font(2, 0, 2, 1), Font(3, seed % 1000, 1, 1),
-             Font(3, seed % 1000 + 1, 2, 0), Font(0, 0, 0, 0)]
+             Font(3, seed % 1000 + 1, 2, 0), Font(0, 0, 0, 0), Font(1, 0, 1, 1, 1), Font(3, seed % 1000 + 3, 1, 0, 1)]
     if thorough:
         fonts += [Font(3, seed % 1000 + 2, 0, 1), Font(1, 0, 2, 0)]
     out = []
